@@ -61,9 +61,13 @@ KINDS = {
     "defnull": "ALTER TABLE {T} ADD CONSTRAINT d2 DEFAULT NULL FOR c;",
     "fkact": "ALTER TABLE {T} ADD CONSTRAINT fk2 FOREIGN KEY (c) REFERENCES s9.o (y) ON DELETE CASCADE ON UPDATE RESTRICT;",
     "idxn": "CREATE INDEX i4 ON {T} (a, b DESC NULLS FIRST, c NULLS LAST);",
+    # re-declaring a sized column with a default (def first) as an unsized type: the new definition replaces the old one completely
+    "modtxt": "ALTER TABLE {T} MODIFY COLUMN {b} text;",
+    "alttxt": "ALTER TABLE {T} ALTER COLUMN {b} bigint;",
+    "defb": "ALTER TABLE {T} ADD CONSTRAINT d3 DEFAULT 7 FOR b;",
 }
 MODES = ["sql", "bigquery"]
-D3Q_KINDS = ["add", "ifex", "dropd", "rend", "drop", "rename", "fk1", "modcol", "fkbb", "fkd"]
+D3Q_KINDS = ["add", "ifex", "dropd", "rend", "drop", "rename", "fk1", "modcol", "fkbb", "fkd", "modtxt", "defb"]
 D3Q_TABS = ["s1.t", "t"]
 D3_KINDS = ["add", "drop", "rename", "modcol", "uq1", "def", "fk", "idx"]
 D3_TABS = ["s1.t", "s2.t", "t"]
@@ -92,7 +96,7 @@ def stmt(op):
 def bounds(tier):
     return {"tables": 5, "kinds": len(KINDS), "spellings": "6 x 6 (schema x table) x 3 (column)", "output_modes": MODES,
             "depth": "1 (all spellings), 2 (all kind/target pairs x 2 modes), 3 (%s)" % (
-                "24^3 + 20^3 triples" if tier == "thorough" else "20^3 triples over the column-list kinds on 2 tables")}
+                "24^3 + 24^3 triples" if tier == "thorough" else "24^3 triples over the column-list kinds on 2 tables")}
 
 
 def gen_cases(tier):
@@ -132,7 +136,9 @@ def gen_cases(tier):
     singles = [[k, t] for k in KINDS for t in TKEYS]
     for a, b in itertools.product(singles, repeat=2):
         cases.append({"tabs": full, "ops": [a + ["asis", "asis", "asis"], b + ["up", "dq", "dq"] if (len(cases) % 2) else b + ["asis", "asis", "asis"]]})
-        cases.append({"tabs": full, "ops": [a + ["asis", "asis", "asis"], b + ["asis", "asis", "asis"]], "mode": "bigquery"})
+        if a[1] in ("s1.t", "t") and b[1] in ("s1.t", "t"):
+            # (bigquery reports the schema as "dataset": the pairs over the two same-named tables are repeated in that mode)
+            cases.append({"tabs": full, "ops": [a + ["asis", "asis", "asis"], b + ["asis", "asis", "asis"]], "mode": "bigquery"})
     # depth 3: every triple over the statements that edit the column list (incl. ones aimed at a column added earlier)
     s3q = [[k, t] for k in D3Q_KINDS for t in D3Q_TABS]
     for tri in itertools.product(s3q, repeat=3):
@@ -170,6 +176,14 @@ def apply(m, op):
         if nm(x) in names:
             cols[names.index(nm(x))][0] = to
         A.setdefault("renamed_columns", []).append({"from": x, "to": to})
+    elif k in ("modtxt", "alttxt"):
+        if nm(b) in names:
+            cols[names.index(nm(b))] = [b, None, None, False]
+    elif k == "defb":
+        A.setdefault("defaults", []).append({"constraint_name": "d3", "columns": ["b"], "value": "7"})
+        for c in cols:
+            if c[0] == "b":
+                c[2] = "7"
     elif k in ("modcol", "mod", "altcol"):
         if nm(b) in names:
             i = names.index(nm(b))
